@@ -57,6 +57,16 @@ func (r *Registry) declareUF(name string, sorts []string, ret string) {
 	r.header = append(r.header, fmt.Sprintf("(declare-fun uf_%s (%s) %s)", name, strings.Join(sorts, " "), ret))
 }
 
+func (r *Registry) declareUFraw(name, sorts, ret string) {
+	for _, u := range r.ufs {
+		if u == name {
+			return
+		}
+	}
+	r.ufs = append(r.ufs, name)
+	r.header = append(r.header, fmt.Sprintf("(declare-fun uf_%s (%s) %s)", name, sorts, ret))
+}
+
 func (r *Registry) structIndex(st *types.Struct) int {
 	for i, s := range r.structs {
 		if types.Identical(s, st) {
@@ -126,6 +136,9 @@ func intWidth(b *types.Basic) int {
 }
 
 func isSigned(t types.Type) bool {
+	if t == nil {
+		return false
+	}
 	b, ok := t.Underlying().(*types.Basic)
 	if !ok {
 		return false
@@ -319,10 +332,11 @@ type State struct {
 	mem map[string]string // memory name -> current SMT term
 	W   string            // allocation watermark (Int term)
 	A   string            // ghost allocation counter in bytes (Int term) for C06
+	H   string            // ghost heap version: bumped by every write except to the types listed in `config heapver_ignore`
 }
 
 func (s *State) clone() *State {
-	n := &State{mem: map[string]string{}, W: s.W, A: s.A}
+	n := &State{mem: map[string]string{}, W: s.W, A: s.A, H: s.H}
 	for k, v := range s.mem {
 		n.mem[k] = v
 	}
@@ -337,6 +351,9 @@ func sortedKeys(m map[string]string) []string {
 	sort.Strings(ks)
 	return ks
 }
+
+// mathIntType is the type of ghost mathematical integers (heapVer(), allocBytes(), ufun "Int" parameters).
+var mathIntType = types.NewNamed(types.NewTypeName(0, nil, "Int", nil), types.Typ[types.UnsafePointer], nil)
 
 type unsupported string
 
